@@ -505,46 +505,74 @@ func oddOnPath(n, pos int) bool {
 	return false
 }
 
+// Signature: the operation, the class of its input, and WHICH sub-checks failed (never concrete
+// hashes, leaf counts or positions)
 func (d *drv) Signature(b *core.Behaviour, idx int, field string, exp, obs any) string {
 	if idx < 0 || idx >= len(b.Steps) {
 		return field
 	}
 	s := b.Steps[idx]
-	cls := func(v any) string {
-		t := core.J(v)
-		// keep the class (which sub-check failed), drop concrete hashes and positions
+	fails := func(v any) string {
+		m, ok := v.(map[string]any)
+		if !ok {
+			return "shape"
+		}
 		var out []string
-		if m, ok := v.(map[string]any); ok {
-			for _, k := range []string{"seq", "comp", "par", "branch", "verify", "eq", "flag", "root", "flat", "segs", "childs", "proofs"} {
-				if x, ok := m[k]; ok && core.J(x) != `"T"` {
-					xs := core.J(x)
-					if i := strings.LastIndex(xs, ":"); i > 0 && strings.HasPrefix(xs, `"X:`) {
-						xs = xs[:i]
-					}
-					if len(xs) > 48 {
-						xs = xs[:48]
-					}
-					out = append(out, k+"="+xs)
-				}
+		for _, k := range []string{"seq", "comp", "par", "branch", "verify", "root", "flat", "segs", "childs", "proofs"} {
+			x, ok := m[k]
+			if !ok {
+				continue
 			}
-			return strings.Join(out, ",")
+			bad := false
+			if l, isl := x.([]any); isl {
+				for _, y := range l {
+					bad = bad || y != "T"
+				}
+			} else {
+				bad = x != "T"
+			}
+			if bad {
+				out = append(out, k)
+			}
 		}
-		if len(t) > 48 {
-			t = t[:48]
-		}
-		return t
+		return strings.Join(out, ",")
+	}
+	kv := func(v any) string {
+		m, _ := v.(map[string]any)
+		return fmt.Sprintf("eq:%v,flag:%v", m["eq"], m["flag"])
 	}
 	switch s.Op() {
 	case "Root":
-		return fmt.Sprintf("Root|n%s80|got=%s", map[bool]string{true: ">", false: "<="}[s.Int("n") > 80], cls(obs))
+		return fmt.Sprintf("Root|n%s80|fails=%s", map[bool]string{true: ">", false: "<="}[s.Int("n") > 80], fails(obs))
 	case "Branch":
-		return fmt.Sprintf("Branch|oddlevel=%v|got=%s", oddOnPath(s.Int("n"), s.Int("pos")), cls(obs))
+		return fmt.Sprintf("Branch|oddlevel=%v|fails=%s", oddOnPath(s.Int("n"), s.Int("pos")), fails(obs))
 	case "Pair":
-		return fmt.Sprintf("Pair|exp=%s|got=%s", cls(exp), cls(obs))
+		return fmt.Sprintf("Pair|exp=%s|got=%s", kv(exp), kv(obs))
 	case "Multi":
-		return fmt.Sprintf("Multi|chains=%d|got=%s", len(s.List("segs")), cls(obs))
+		ch := "1"
+		if len(s.List("segs")) >= 2 {
+			ch = ">=2"
+		}
+		return fmt.Sprintf("Multi|chains%s|fails=%s", ch, fails(obs))
+	case "Sweep":
+		o, _ := obs.(string)
+		var n, w, st int
+		if _, err := fmt.Sscanf(o, "X:par!=seq n=%d w=%d step=%d", &n, &w, &st); err == nil && st > 0 {
+			return fmt.Sprintf("Sweep|par!=seq|partial-last-chunk=%v", n%st != 0)
+		}
+		if strings.HasPrefix(o, "X:comp!=seq") {
+			return "Sweep|comp!=seq"
+		}
+		return "Sweep|" + clipS(o, 40)
 	}
-	return fmt.Sprintf("%s|%s|exp=%s|got=%s", s.Op(), field, cls(exp), cls(obs))
+	return fmt.Sprintf("%s|%s", s.Op(), field)
+}
+
+func clipS(s string, n int) string {
+	if len(s) > n {
+		return s[:n]
+	}
+	return s
 }
 
 func main() {
